@@ -169,6 +169,12 @@ def run(ctx):
                 zs = [x for x in t[1] if const_of(x) == 0]
                 ps = [M.noref(x) for x in t[1] if const_of(x) != 0]
                 return len(zs) == 1 and len(ps) == 1 and ps[0][0] == "field" and ps[0][2] == "0" and ps[0][1][0] == "downcast" and ps[0][1][2] == "Some" and is_max(ps[0][1][1])
+            if t[0] == "call" and (t[1] == "std::iter::Iterator::fold" or t[1].endswith("as std::iter::Iterator>::fold")) and len(t[2]) == 3 and const_of(t[2][1]) == 0:
+                # split_path(..).map(OsStr::len).fold(0, usize::max)
+                it_, f_ = M.noref(t[2][0]), M.noref(t[2][2])
+                if f_[0] == "fnitem" and f_[1] in ("std::cmp::Ord::max", "core::cmp::Ord::max", "std::cmp::max", "core::cmp::max") and it_[0] == "call" and it_[1] == "std::iter::Iterator::map" \
+                        and M.noref(it_[2][1]) == ("fnitem", "std::ffi::OsStr::len") and from_split(it_[2][0]):
+                    return True
             if t[0] == "call" and t[1] == "std::iter::Iterator::fold" and len(t[2]) == 3 and const_of(t[2][1]) == 0 and from_split(t[2][0]):
                 cl = t[2][2]
                 if cl[0] == "agg" and cl[1][0] == "closure" and cl[1][1] in prog.fns:
@@ -242,8 +248,9 @@ def run(ctx):
                     return {k: min(f.get(k, 0) for f in forms) for k in keys}       # a lower bound over the alternatives
                 return None
             if some_all and none_all:
-                r_none = pn.reachable(0, removed_edges=set(some_all))
-                r_some = pn.reachable(0, removed_edges=set(none_all))
+                # (the two cases by evaluation: later case distinctions on values derived from search_path follow it)
+                r_none = M.Explore(pn, assume_fn=lambda t_: 0 if (t_ and is_sp(t_)) else None, removed_edges=set(some_all)).blocks
+                r_some = M.Explore(pn, assume_fn=lambda t_: 1 if (t_ and is_sp(t_)) else None, removed_edges=set(none_all)).blocks
                 arg = wc[0][1]["args"][0]
                 if cap_no is None:
                     cap_no = lin2(M.Terms(pn, blocks=r_none).operand(arg))
